@@ -86,6 +86,34 @@ var encSections = []corpusSection{
 		ef := []string{"string", "binary", "*struct", "list"}[i%4]
 		return listCase(r, i/4 == 1, ef, n)
 	}},
+	{"pointershaped", 48, func(r *gen.Rand, i int) *corpusCase {
+		// structs that Go keeps directly in the interface word when passed by value: a single
+		// pointer or map field, possibly wrapped in by-value single-field structs
+		leaf := gen.Zoo(&zoo.Leaf{})
+		var inner *schema.Type
+		switch i % 4 {
+		case 0:
+			inner = schema.StructOf(leaf, true)
+		case 1:
+			inner = schema.MapOf(schema.Scalar(schema.String), schema.Scalar(schema.I32))
+		case 2:
+			inner = schema.PtrTo(schema.Scalar(schema.I64))
+		default:
+			inner = schema.MapOf(schema.Scalar(schema.I32), schema.StructOf(leaf, true))
+		}
+		req := schema.Req(2 * (i / 4 % 2)) // default or optional
+		if inner.Ptr && inner.K != schema.StructK {
+			req = schema.Optional
+		}
+		s := gen.Single(uint16(1+r.Intn(9)), req, inner)
+		for w := 0; w < i/8%3; w++ { // 0-2 by-value wrappers
+			s = gen.Single(uint16(1+r.Intn(9)), schema.Req(r.Intn(2)), schema.StructOf(s, false))
+		}
+		cfg := gen.DefaultValCfg()
+		cfg.MaxDepth = 6
+		v := gen.NewValue(r, s, cfg)
+		return &corpusCase{S: s, V: v, Class: "pointershaped", Tags: []string{fmt.Sprintf("pointershaped:wrappers=%d:kind=%d", i/8%3, i%4)}}
+	}},
 	{"idclasses", len(gen.IDClasses) * 3, func(r *gen.Rand, i int) *corpusCase {
 		id := gen.IDClasses[i/3]
 		req := schema.Req(i % 3)
